@@ -518,6 +518,17 @@ func (g *accessGen) stmt(s ast.Stmt, st lockState, lc *loopCtx) (lockState, bool
 			g.expr(r, st)
 		}
 		for _, l := range x.Lhs {
+			// Locks are identified by the text of the expression they were
+			// taken on. That is sound only while the variable at its root keeps
+			// its value: an assignment to it while such a lock is held would
+			// make later accesses through the variable look protected.
+			if id, ok := l.(*ast.Ident); ok && id.Name != "_" {
+				for _, h := range st {
+					if h.expr == id.Name || strings.HasPrefix(h.expr, id.Name+".") {
+						g.fail(x, "%s is assigned while the lock on %s (line %d) is held", id.Name, h.expr, h.site/1000)
+					}
+				}
+			}
 			if x.Tok == token.DEFINE {
 				if _, ok := l.(*ast.Ident); ok {
 					continue
